@@ -79,6 +79,7 @@ type FuncContract struct {
 	Flags     map[string]string
 	attached  bool
 	InlineAll []string
+	Reveals   []string
 }
 
 type PureFunc struct {
@@ -92,6 +93,7 @@ type PureFunc struct {
 	Abstract bool // no body: uninterpreted
 	Stable   bool // abstract function that does not depend on the object's state version
 	BVOnly   bool // body is bit-level: outside bit-vector mode the function is opaque
+	Opaque   bool // definition hidden (uninterpreted) unless the function under verification reveals it
 	File     string
 	Line     int
 }
@@ -136,7 +138,7 @@ var clauseKeywords = map[string]bool{
 	"loop": true, "inline": true, "mode": true, "recovers": true, "diverges": true, "trusted": true,
 	"nosafe": true, "use": true, "monitor": true, "ghost": true, "case": true, "secret": true,
 	"sink": true, "flag": true, "const": true, "protects": true, "invariant": true, "abstract": true,
-	"inlinecalls": true, "inst": true, "rows": true, "oracle": true, "row": true, "writeset": true,
+	"inlinecalls": true, "inst": true, "reveal": true, "rows": true, "oracle": true, "row": true, "writeset": true,
 }
 
 func firstWord(s string) string {
@@ -231,6 +233,11 @@ func ParseContractFile(path string) (*ContractFile, error) {
 				bvOnly = true
 				rest = strings.TrimSpace(strings.TrimPrefix(rest, "bv "))
 			}
+			opaque := false
+			if strings.HasPrefix(rest, "opaque ") {
+				opaque = true
+				rest = strings.TrimSpace(strings.TrimPrefix(rest, "opaque "))
+			}
 			pf, err := parsePure(strings.TrimSpace(strings.TrimPrefix(rest, "func")))
 			if err != nil {
 				return nil, fail(l, "%v", err)
@@ -238,6 +245,7 @@ func ParseContractFile(path string) (*ContractFile, error) {
 			pf.File, pf.Line = path, l.n
 			pf.Stable = stable
 			pf.BVOnly = bvOnly
+			pf.Opaque = opaque
 			if w == "abstract" {
 				pf.Abstract = true
 			}
@@ -454,6 +462,8 @@ func ParseContractFile(path string) (*ContractFile, error) {
 			curF.Asserts = append(curF.Asserts, AtCall{Ordinal: k, Callee: f[4], Kind: f[5], C: c})
 		case w == "inline":
 			curF.Inline = true
+		case w == "reveal":
+			curF.Reveals = append(curF.Reveals, strings.Fields(rest)...)
 		case w == "inlinecalls":
 			curF.InlineAll = append(curF.InlineAll, strings.Fields(rest)...)
 		case w == "mode":
